@@ -6,6 +6,7 @@ import ClaripyProofs.Lemmas.AST.CmpSound
 import ClaripyProofs.Lemmas.AST.AndEqNeSound
 import ClaripyProofs.Lemmas.AST.MinMaxSound
 import ClaripyProofs.Lemmas.AST.Typing
+import ClaripyProofs.Lemmas.AST.WtOfEval
 /-!
 The constructor as a whole: an expression is *built* from the written tree bottom-up; at every node the constructor may keep
 the node, fold it (all operands literals), rewrite it by a schema of the rule table, or rewrite it in a way one of the
@@ -19,7 +20,7 @@ open Claripy.Props.C04 (WT)
 inductive Direct : Expr → Expr → Prop
   | keep (t : Expr) : Direct t t
   | fold (op : Op) (args : List Expr) (vs : List CVal) (c : CVal) :
-      args.mapM Expr.toCVal? = some vs → WT op vs → foldOp op vs = .ok c → Direct (.app op args) c.toExpr
+      args.mapM Expr.toCVal? = some vs → foldOp op vs = .ok c → Direct (.app op args) c.toExpr
   | schema (s : Schema) (p : P) : s ∈ R.all → s.side p = true → Direct (s.lhs p) (s.rhs p)
   | ac (k : ACK) (w : Nat) (t r : Expr) : t.width = some w → acEquiv k w t r = true → Direct t r
   | bc (k : BK) (args : List Expr) (r : Expr) : bcEquiv k (.app k.op args) r = true → Direct (.app k.op args) r
@@ -117,7 +118,7 @@ theorem minmax_not_bool (env : Env) (t r : Expr) (h : minmaxEquiv t r = true) (b
 theorem Direct_sound {t r : Expr} (h : Direct t r) (env : Env) (hwt : eval env t ≠ .err) : eval env r = eval env t := by
   cases h with
   | keep => rfl
-  | fold op args vs c hm hwtv hf =>
+  | fold op args vs c hm hf =>
     have hargs : ∀ a ∈ args, eval env a ≠ .err := by
       intro a ha hea
       apply hwt
@@ -126,6 +127,7 @@ theorem Direct_sound {t r : Expr} (h : Direct t r) (env : Env) (hwt : eval env t
       rw [evalList_eq_map, ← hea]
       exact List.mem_map_of_mem ha
     obtain ⟨hev, hcanon⟩ := mapM_toCVal env args vs hm hargs
+    have hwtv : WT op vs := wt_of_ne_err op vs (by rw [← hev, ← eval_app]; exact hwt) c hf
     have hs := foldOp_sound op (by cases op <;> rfl) vs hwtv hcanon c hf
     rw [eval_app, hev, hs] at hwt ⊢
     -- the folded constant evaluates to its value (its width is positive because the node is well-typed)
